@@ -111,6 +111,66 @@ theorem replace_hole_refused (s : TdfSt) (b : BlkArg) (c : Option Str) (now : In
   unfold replaceBlock
   simp [hfind, hchk, hh]
 
+/-! ### every call of a history, every state (session 5) -/
+
+theorem typesNodup_tail (x : Entry) (xs : List Entry) (h : TypesNodup (x :: xs)) : TypesNodup xs := by
+  unfold TypesNodup liveOf at h ⊢
+  simp only [List.filter_cons] at h
+  split at h
+  · exact (List.nodup_cons.mp h).2
+  · exact h
+
+/-- "at most one block per type" (C11's invariant) gives the proviso of `replace_rejected_unchanged_any` for every type -/
+theorem once_of_typesNodup (es : List Entry) (t : Nat) (ht : t ≠ 0) (h : TypesNodup es) :
+    hasType t (eraseFirst (fun x => x.typ == t) es) = false := by
+  induction es with
+  | nil => rfl
+  | cons x xs ih =>
+    unfold eraseFirst
+    by_cases hx : x.typ = t
+    · simp only [hx, beq_self_eq_true, if_true]
+      unfold TypesNodup liveOf at h
+      have hlive : (x.typ != 0) = true := by simp [hx, ht]
+      simp only [List.filter_cons, hlive, if_true, List.map_cons, List.nodup_cons] at h
+      unfold hasType
+      rw [Bool.eq_false_iff]
+      intro hany
+      obtain ⟨e, he, het⟩ := List.any_eq_true.mp hany
+      have het' : e.typ = t := by simpa using het
+      apply h.1
+      rw [hx]
+      exact List.mem_map.mpr ⟨e, List.mem_filter.mpr ⟨he, by simp [het', ht]⟩, het'⟩
+    · have hx' : (x.typ == t) = false := by simpa using hx
+      simp only [hx', Bool.false_eq_true, if_false]
+      have := ih (typesNodup_tail x xs h)
+      unfold hasType at this ⊢
+      simp only [List.any_cons, hx', Bool.false_or]
+      exact this
+
+/-- ONE call on ANY state with at most one block per type — table in any order, gaps, unused slots anywhere —: whatever the call
+    (add, remove, replace, setter) and whatever the reason of the refusal, a call that reports an error leaves object and file as they were -/
+theorem step_rejected_unchanged_any (s : TdfSt) (op : Op) (hop : TableOp op) (hn : TypesNodup s.entries) (e : Err)
+    (h : (step s op).2 = .err e) : (step s op).1 = s := by
+  cases op with
+  | add b c now => exact add_rejected_unchanged s b c now e h
+  | remove t now => exact remove_rejected_unchanged s t now e h
+  | replace b c now => exact replace_rejected_unchanged_any s b c now e hop (once_of_typesNodup _ _ hop hn) h
+  | set b now =>
+    simp only [step, setBlock] at h ⊢
+    split at h
+    · rename_i hh; simp only [hh, if_true]
+      exact replace_rejected_unchanged_any s b none now e hop (once_of_typesNodup _ _ hop hn) h
+    · rename_i hh; simp only [hh, if_false]
+      exact add_rejected_unchanged s b _ now e h
+  | reopen => exact absurd hop (by simp [TableOp])
+
+/-- EVERY history from such a state: the proviso is itself an invariant (`history_keeps_typesNodup`), so at every point of every history
+    a refused call leaves the state that the history had reached — nothing to assume about the calls before it -/
+theorem history_rejected_unchanged_any (s : TdfSt) (ops : List Op) (hops : ∀ op ∈ ops, TableOp op) (hn : TypesNodup s.entries)
+    (op : Op) (hop : TableOp op) (e : Err) (h : (step (runOps s ops) op).2 = .err e) :
+    (step (runOps s ops) op).1 = runOps s ops :=
+  step_rejected_unchanged_any _ op hop (history_keeps_typesNodup s ops hops hn) e h
+
 /-- such a state exists: table [events, unused, EMG] — replacing the events block would leave [unused, EMG, unused] -/
 example : holeIn (eraseFirst (fun x => x.typ == 16) [⟨16, 1, 928, 8, 0, 0, 0, []⟩, ⟨0, 0, 1000, 0, 0, 0, 0, []⟩, ⟨11, 1, 936, 64, 0, 0, 0, []⟩]) = true := by decide
 /-- … while replacing the EMG block of the same table is fine: what remains is [events, unused] -/
